@@ -57,7 +57,13 @@ def _values():
                                       1.0000025, 1.000005, 1.0000075,
                                       2.5, 2.5000000000000004]),
                      min_size=2, max_size=4, unique=True)
+    # a value listed more than once (SNR=0:5:20,20): every listed position
+    # is a variation of its own
+    dups = st.lists(st.sampled_from([0, 5, 10, 10, 20]), min_size=2,
+                    max_size=4)
     return st.one_of(st.tuples(st.just("list"), ints),
+                     st.tuples(st.just("list"), dups),
+                     st.tuples(st.just("array"), dups),
                      st.tuples(st.just("array"), ints),
                      st.tuples(st.just("array"), floats),
                      st.tuples(st.just("list"), floats),
@@ -94,6 +100,8 @@ def _cfg(draw, tier, with_file=None):
         st.builds(lambda a, b: {"kind": "ratio", "num": a, "den": b},
                   st.integers(0, 8), st.integers(1, 4)),
     ))
+    # type of the value the stop rule returns: bool or numpy.bool_
+    stop = dict(stop, ret=draw(st.sampled_from(["bool", "bool", "npbool"])))
     skips = draw(st.lists(
         st.tuples(st.integers(0, nvar - 1),
                   st.one_of(st.just(0), st.integers(0, rep_max + 3))),
@@ -430,6 +438,10 @@ def _check_lookups(case, cfg, names, combos, runner, expected, tags, ctx):
             if mask[i % 3]:
                 vals = dict(cfg["unpacked"])[n]
                 fixed_d[n] = vals[picks[i % 3] % len(vals)]
+        if any(list(dict(cfg["unpacked"])[n]).count(val) > 1
+               for n, val in fixed_d.items()):
+            # 'the' entry of a value listed twice is not defined
+            continue
         if not fixed_d:
             continue
         want = [i for i, c in enumerate(combos)
